@@ -379,7 +379,7 @@ theorem zoneLoop_fixed (f : Fields) (c prevSec : Int) (fuel : Nat) (wall : Civil
       have hd : (fixedZone c).date t.toSeconds = t.toSeconds - c := rfl
       simp only [hd, hf, if_true]
 
-theorem wall0_valid (c prev : Int) (hc : -100000 ≤ c ∧ c ≤ 100000) (hp : 0 ≤ prev) :
+theorem wall0_valid (c prev : Int) (hc : -100000 ≤ c ∧ c ≤ 100000) (hp : -9223372036854775808 ≤ prev) :
     (Civil.ofSeconds (prev / 1000000000 + c)).Valid ∧
       (Civil.ofSeconds (prev / 1000000000 + c)).toSeconds = prev / 1000000000 + c := by
   apply Civil.toSeconds_ofSeconds
@@ -388,7 +388,7 @@ theorem wall0_valid (c prev : Int) (hc : -100000 ≤ c ∧ c ≤ 100000) (hp : 0
 
 /-- `nextFire` on a fixed-offset location is one call of the state machine -/
 theorem nextFire_fixed (f : Fields) (hwf : WellFormed f = true) (c prev : Int)
-    (hc : -100000 ≤ c ∧ c ≤ 100000) (hp : 0 ≤ prev) :
+    (hc : -100000 ≤ c ∧ c ≤ 100000) (hp : -9223372036854775808 ≤ prev) :
     ∃ nw, csmNext {} f (Civil.ofSeconds (prev / 1000000000 + c)) = some nw ∧
       nextFire {} f (fixedZone c) prev =
         (match nw with
@@ -417,7 +417,7 @@ theorem nextFire_fixed (f : Fields) (hwf : WellFormed f = true) (c prev : Int)
 
 /-- an `.ok` result is the instant of the civil time found by the state machine -/
 theorem nextFire_ok (f : Fields) (hwf : WellFormed f = true) (c prev : Int)
-    (hc : -100000 ≤ c ∧ c ≤ 100000) (hp : 0 ≤ prev) (r : Int)
+    (hc : -100000 ≤ c ∧ c ≤ 100000) (hp : -9223372036854775808 ≤ prev) (r : Int)
     (h : nextFire {} f (fixedZone c) prev = .ok r) :
     ∃ t, csmNext {} f (Civil.ofSeconds (prev / 1000000000 + c)) = some (some t) ∧
       r = (t.toSeconds - c) * 1000000000 := by
@@ -428,7 +428,7 @@ theorem nextFire_ok (f : Fields) (hwf : WellFormed f = true) (c prev : Int)
   | some t => exact ⟨t, hnw, (Outcome.ok.inj h).symm⟩
 
 theorem nextFire_expired (f : Fields) (hwf : WellFormed f = true) (c prev : Int)
-    (hc : -100000 ≤ c ∧ c ≤ 100000) (hp : 0 ≤ prev)
+    (hc : -100000 ≤ c ∧ c ≤ 100000) (hp : -9223372036854775808 ≤ prev)
     (h : nextFire {} f (fixedZone c) prev = .expired) :
     csmNext {} f (Civil.ofSeconds (prev / 1000000000 + c)) = some none := by
   obtain ⟨nw, hnw, hnf⟩ := nextFire_fixed f hwf c prev hc hp
